@@ -20,7 +20,8 @@ META = {
 
 TABLES = ["MACRO_RECURSION_COST", "INCLUDE_RECURSION_COST", "MAX_RECURSION_ENV", "C11_REENTRY_SITES",
           "C11_DEPTH_CHECK", "C11_LIMIT_CLAMP", "C11_INCLUDE_EXITS", "C11_DECR_DEPTH", "C11_CONTEXT_SITES", "C11_LIMIT_SOURCE", "C11_CONTEXT_HELPERS",
-          "MAX_RECURSION_PARSER", "C11_CHARGES", "C11_FRAME", "C11_ENV_LIMITS", "MAX_LOCALS"]
+          "MAX_RECURSION_PARSER", "C11_CHARGES", "C11_FRAME", "C11_ENV_LIMITS", "MAX_LOCALS",
+          "C11_COST_ARGS", "C11_STACKER", "C11_BUILTINS"]
 EIGHT_MIB = 8 << 20
 TWO_MIB = 2 << 20
 NOISE_NAME = {"d": "lazy-load-deep-expr", "e": "lazy-load-deep-ast", "f": "lazy-load-deep-stmts", "g": "swallowed-lazy-syntax-error",
@@ -94,6 +95,7 @@ PROFILES = {
     "hooksO0": dict(hooks=True, opt0=True, release=False, tiers=("thorough",)),
 }
 LAZY = "defgh"
+AMBIENT = {"ubs": "undefined=strict", "ubc": "undefined=chainable", "ubl": "undefined=semi-strict", "fuel": "fuel on", "aeh": "auto-escape html"}
 ROOT_KIND = {"m": "map", "u": "unit ()", "x": "Value::UNDEFINED", "o": "custom Object", "e": "context!{}", "s": "serialized struct"}
 
 
@@ -186,6 +188,10 @@ def evaluate(r, profile, lines, model, stats, max_recursion, band_start=None):
         r.hist["limit"][limit] += 1
         r.hist["thread"][thread_base] += 1
         toks = [t for t in mode.split("+") if t]
+        nest = next((int(t[4:]) for t in toks if t.startswith("nest") and t[4:].isdigit()), 1)
+        r.hist["ambient_configuration"]["+".join(AMBIENT[t] for t in toks if t in AMBIENT) or "default (lenient, no fuel, auto-escape by name)"] += 1
+        r.hist["renders_nested_by_rust_callbacks"][nest] += 1
+        toks = [t for t in toks if t not in AMBIENT and not t.startswith("nest")]
         r.hist["entry_point"]["+".join(t for t in toks if not (len(t) == 2 and t[0] == "r") and t not in ("empty", "deflimit")) or "render"] += 1
         r.hist["root_context_kind"][next((ROOT_KIND.get(t[1], t) for t in toks if len(t) == 2 and t[0] == "r"), "map")] += 1
         mode = "+".join(t for t in toks if not (len(t) == 2 and t[0] == "r"))
@@ -226,7 +232,7 @@ def evaluate(r, profile, lines, model, stats, max_recursion, band_start=None):
                 r.oracle_failure(full, f"Context::depth() is not restored by a completed nested construct ({drift}): every completed "
                                        f"include/import/macro/block/with/for must leave the depth as it found it, or the limit does not bound the nesting",
                                  f"depth-not-restored:{kind}")
-            if hooks and (hwn > bound or hwd > bound):
+            if hooks and (hwn - (nest - 1) > bound or hwd > bound):
                 r.oracle_failure(full, f"high-water marks exceed the limit {limit}: depth {hwd}, nested eval_impl {hwn}", f"high-water-exceeds-limit:{cls}")
         # finite recursions placed around the cut-off of the accounting: exactly those the limit admits succeed
         in_band = band_start is not None and i >= band_start
@@ -237,8 +243,10 @@ def evaluate(r, profile, lines, model, stats, max_recursion, band_start=None):
                                        f"the limit {'does not admit' if ms != 'ok' else 'admits'} it (cut-off shifted)", f"cut-off-shifted:{cls}")
         # ---------------------------------------------------------------- correspondence
         if ms is not None and not crashed:
-            if hooks and (status, hwd, hwn) != (ms, md, mn):
-                r.model_disagreement(full, f"{status} depth={hwd} native={hwn}", f"{ms} depth={md} native={mn}")
+            # every render a Rust function starts around the program is one more interpreter activation
+            # on the native stack and a root of its own: nothing else changes
+            if hooks and (status, hwd, hwn) != (ms, md, mn + nest - 1):
+                r.model_disagreement(full, f"{status} depth={hwd} native={hwn}", f"{ms} depth={md} native={mn + nest - 1}" + (f" ({nest} renders)" if nest > 1 else ""))
             elif not hooks and status != ms:
                 r.model_disagreement(full, status, ms)
         # ---------------------------------------------------------------- measurements
@@ -432,11 +440,42 @@ def run(r):
         "two_MiB": TWO_MIB, "profiles": report,
     }
     r.extra["lean_snapshot_check"] = snapshot_check(report)
-    r.extra["stack_budget"] = stack_budget(r, stats, known_sites, drive)
+    leaf = leaf_measure(r, exes, st["items"].get("C11_BUILTINS") or [])
+    r.extra["leaf_calls"] = leaf
+    r.extra["stack_budget"] = stack_budget(r, stats, known_sites, drive, leaf)
     r.exhaustive = False
 
 
-def stack_budget(r, stats, known_sites, drive):
+def leaf_measure(r, exes, builtins):
+    """the deepest leaf call per build without hooks: every builtin filter / test / function of the
+    regenerated name table applied to a probing object that reports the stack pointer from its
+    callbacks, relative to a plain function called from the same template level"""
+    out = {}
+    if not builtins:
+        r.broken.append("no builtin names for the leaf measurement (table C11_BUILTINS)")
+        return out
+    inp = "".join(f"{k} {n}\n" for k, n in builtins)
+    for profile, exe in exes.items():
+        if PROFILES[profile]["hooks"]:
+            continue
+        rc, o, err = r.harness(exe, ["leaf"], inp=inp, timeout=600)
+        rows = [l.split("\t") for l in o.splitlines() if l.startswith("leaf\t")]
+        if rc != 0 or len(rows) != len(builtins):
+            r.broken.append(f"harness c11 ({profile}) leaf measurement: rc {rc}, {len(rows)} of {len(builtins)} builtins")
+            continue
+        vals = {f"{x[1]}:{x[2]}": int(x[3]) for x in rows}
+        ran = sum(1 for x in rows if int(x[4]) > 0)
+        top = sorted(vals.items(), key=lambda kv: -kv[1])[:5]
+        out[profile] = {"max_bytes": max(vals.values()), "deepest": top, "builtins": len(rows), "builtins_that_ran": ran}
+        for x in rows:
+            r.count(f"{profile} leaf {x[1]} {x[2]}", nontrivial=int(x[3]) > 0)
+            r.hist["leaf_measurement"][f"{profile}:{x[1]}:{'reached the probe' if int(x[3]) > 0 else 'did not look at the probe'}"] += 1
+        if ran < len(rows) // 2:
+            r.broken.append(f"leaf measurement ({profile}): only {ran} of {len(rows)} builtins ran on the probing object")
+    return out
+
+
+def stack_budget(r, stats, known_sites, drive, leaf=None):
     """two-limit slopes of every pure cycle (bytes per native level and per depth unit between the
     runs at limit 100 and at limit 500 on the main thread), reduced to bytes per model kind, entry
     overhead and bytes per Rust callback frame; the hypotheses of the Lean theorems
@@ -491,9 +530,10 @@ def stack_budget(r, stats, known_sites, drive):
             for mask, pname in (("11111", "all"), ("11100", "macro+caller+include")):
                 for h in (0, 2):
                     label = f"{profile}|{sname}|{pname}|H{h}"
-                    lines.append("budget %s %d %d %d %d %d %d %d %d %d %s" % (
+                    lf = ((leaf or {}).get(profile) or {}).get("max_bytes", 0)
+                    lines.append("budget %s %d %d %d %d %d %d %d %d %d %s %d" % (
                         label, stack, root, math.ceil(hop) if h else 0, h, b["macroCall"], b["callerCall"], b["includeTpl"],
-                        b["blockCall"], b["superCall"], mask))
+                        b["blockCall"], b["superCall"], mask, lf))
                     meta.append((profile, sname, pname, h, label))
     if not lines:
         return out
@@ -503,13 +543,21 @@ def stack_budget(r, stats, known_sites, drive):
         return out
     for (profile, sname, pname, h, label), line in zip(meta, res):
         f = line.split("\t")
-        if len(f) != 8 or f[1] != label:
+        if len(f) != 10 or f[1] != label:
             r.broken.append(f"stack budget line not understood: {line[:100]}")
             continue
-        ok, rho, projected, stack, lower, arrays = f[2] == "true", int(f[3]), int(f[4]), int(f[5]), f[6] == "true", int(f[7])
+        ok0, rho, projected, stack, lower, arrays = f[2] == "true", int(f[3]), int(f[4]), int(f[5]), f[6] == "true", int(f[7])
+        # the obligation is the budget WITH the deepest leaf call on top (`h_budget` of C11_main)
+        ok, stacker_ok = f[8] == "true", f[9] == "true"
+        lf = ((leaf or {}).get(profile) or {}).get("max_bytes", 0)
         out[profile].setdefault("budget", {})[f"{sname}|{pname}|H{h}"] = {
-            "budgetOK": ok, "rho_bytes_per_depth_unit": rho, "projected_bytes": projected, "stack": stack,
-            "margin": stack - projected, "frameLowerOK": lower, "eval_impl_array_bytes": arrays}
+            "budgetOK": ok0, "budgetLeafOK": ok, "leaf_bytes": lf, "rho_bytes_per_depth_unit": rho, "projected_bytes": projected, "stack": stack,
+            "margin": stack - projected - lf, "frameLowerOK": lower, "eval_impl_array_bytes": arrays, "stackerOK(red zone)": stacker_ok}
+        if h == 2 and pname == "all" and sname == "2MiB":
+            r.hist["stacker_red_zone"][f"{profile}:{'fits' if stacker_ok else 'does not fit'}"] += 1
+            if not stacker_ok:
+                r.broken.append(f"{profile}: an activation with {h} callback frames and the deepest leaf call ({lf} B) does not fit "
+                                f"the red zone of stacker::maybe_grow: with the `stacker` feature the stack can overflow between two growth checks")
         r.hist["stack_budget"][f"{sname}|{pname}|H{h}:{'holds' if ok else 'fails'}"] += 1
         if not lower:
             r.broken.append(f"{profile}: a measured frame is smaller than the fixed-size arrays of eval_impl ({arrays} bytes): "
